@@ -129,6 +129,32 @@ TH.EXTRA.update({
 })
 
 
+# weight handed to the record k by the first j positions of a batch (edge_list, edge_layer, weights): fold-defined
+BSUM = z3.Function("bsum_m", z3.ArraySort(T.I, T.TupS), z3.ArraySort(T.I, T.LAYER.sort()), T.B, z3.ArraySort(T.I, T.R), T.I, MK.sort(), T.R)
+_be, _bl, _bh, _bw = z3.Const("_bem", z3.ArraySort(T.I, T.TupS)), z3.Const("_blm", z3.ArraySort(T.I, T.LAYER.sort())), z3.Bool("_bhm"), z3.Const("_bwm", z3.ArraySort(T.I, T.R))
+_bj, _bk = z3.Int("_bjm"), z3.Const("_bkm", MK.sort())
+TH.EXTRA.update({
+    "bsum_m_0 (definition)": z3.ForAll([_be, _bl, _bh, _bw, _bk], BSUM(_be, _bl, _bh, _bw, 0, _bk) == 0, patterns=[BSUM(_be, _bl, _bh, _bw, 0, _bk)]),
+    "bsum_m_step (definition)": z3.ForAll([_be, _bl, _bh, _bw, _bj, _bk], z3.Implies(_bj >= 0,
+        BSUM(_be, _bl, _bh, _bw, _bj + 1, _bk) == BSUM(_be, _bl, _bh, _bw, _bj, _bk) +
+        z3.If(MK.mk(TH.canon(_be[_bj]), _bl[_bj]) == _bk, z3.If(_bh, _bw[_bj], z3.RealVal(1)), z3.RealVal(0))),
+        patterns=[BSUM(_be, _bl, _bh, _bw, _bj + 1, _bk)]),
+})
+
+
+def _bsum(eng, p, h, el, ly, ws, j, k):
+    if ws.ty == T.NONE:
+        hw, aw = z3.BoolVal(False), z3.K(T.I, z3.RealVal(0))
+    elif isinstance(ws.ty, T.Opt):
+        hw, aw = z3.Not(ws.is_none), ws.val.at
+    else:
+        hw, aw = z3.BoolVal(True), ws.at
+    return T.sv_real(BSUM(el.at, ly.at, hw, aw, eng.coerce(j, T.INT).t, k.t))
+
+
+VIEWS["bsum"] = _bsum
+
+
 def C(name, **kw):
     kw.setdefault("properties", ["C04"])
     return Contract(f"{CLS}.{name}", FILE, [CLS, name], self_cls=CLS, **kw)
@@ -311,6 +337,72 @@ CONTRACTS = [
           "NM_kept": "all(NM(self, n) == NM(old(self), n) for n in V(old(self)))",
           "weighted": "weighted(self) == weighted(old(self))"}}),
     # ------------------------------------------------------------------ aggregation across layers
+    # ------------------------------------------------------------------ construction and batched forms
+    C("__init__",
+      params={"edge_list": "None", "edge_layer": "None", "weighted": "Bool", "weights": "None", "hypergraph_metadata": "Opt[Meta]",
+              "node_metadata": "None", "edge_metadata": "None"},
+      fixed={"edge_list": None, "edge_layer": None, "weights": None, "node_metadata": None, "edge_metadata": None},
+      modifies=list(FIELDS),
+      ensures={"wf": "wf(self)", "V": "all(n not in V(self) for n in Node)", "E": "all(k not in E(self) for k in Key)",
+               "layers": "all(l not in LAYERS(self) for l in Layer)", "weighted": "weighted(self) == weighted"}),
+    C("add_nodes", params={"node_list": "Bag[Int]", "node_metadata": "Opt[Map[Int,Meta]]"},
+      requires={"wf": "wf(self)"},
+      may_raise={"ValueError": "node_metadata is not None and any(n not in node_metadata for n in node_list)"},
+      on_raise={"wf": "wf(self)", "E": "E(self) == E(old(self))"},
+      modifies=["_adj", "_node_metadata"],
+      ensures={"wf": "wf(self)",
+               "V": "all((n in V(self)) == (n in V(old(self)) or count(node_list, n) >= 1) for n in Node)",
+               "E": "E(self) == E(old(self))",
+               "NM_kept": "all(implies(node_metadata is None or NM(old(self), n) != EMPTY, NM(self, n) == NM(old(self), n)) for n in V(old(self)))",
+               "NM_new": "all(implies(n not in V(old(self)) and count(node_list, n) == 1, NM(self, n) == (EMPTY if node_metadata is None else node_metadata[n])) for n in node_list)"},
+      invariants={0: {
+          "wf": "wf(self)",
+          "V": "all((n in V(self)) == (n in V(old(self)) or count(_done0, n) >= 1) for n in Node)",
+          "NM_kept": "all(implies(node_metadata is None or NM(old(self), n) != EMPTY, NM(self, n) == NM(old(self), n)) for n in V(old(self)))",
+          "NM_new": "all(implies(n not in V(old(self)) and count(node_list, n) == 1, NM(self, n) == (EMPTY if node_metadata is None else node_metadata[n])) for n in _done0)",
+          "meta_ok": "implies(node_metadata is not None, all(n in node_metadata for n in _done0))"}}),
+    # batched insertion = fold of add_edge over the parallel lists (hyperedge, layer, weight, metadata): the same node set may be
+    # put into several layers by one weighted batch, each record getting the weight at its own position
+    C("add_edges", params={"edge_list": "Seq[Tup]", "edge_layer": "Seq[Layer]", "weights": "Opt[Seq[Real]]", "metadata": "Opt[Seq[Meta]]"},
+      requires={"wf": "wf(self)",
+                "edges_ok": "all(distinct(edge_list[m]) and len(edge_list[m]) >= 1 for m in Int if 0 <= m and m < len(edge_list))",
+                "layers_len": "len(edge_layer) >= len(edge_list)",
+                "weights_ok": "implies(weights is not None, weighted(self))",
+                "metadata_len": "implies(metadata is not None, len(metadata) >= len(edge_list))"},
+      # the only rejections (a repeated (hyperedge, layer) pair or a length mismatch in a weighted batch) happen before anything is modified
+      on_raise={"wf": "wf(self)", "V": "V(self) == V(old(self))", "E": "E(self) == E(old(self))",
+                "W": "all(W(self, k) == W(old(self), k) for k in E(self))"},
+      may_raise={"ValueError": "weights is not None"},
+      modifies=["_adj", "_node_metadata", "_edge_list", "_reverse_edge_list", "_weights", "_edge_metadata", "_next_edge_id", "_existing_layers"],
+      ensures={"wf": "wf(self)",
+               "V": "all((n in V(self)) == (n in V(old(self)) or any(0 <= m and m < len(edge_list) and n in edge_list[m] for m in Int)) for n in Node)",
+               "E": "all((k in E(self)) == (k in E(old(self)) or any(0 <= m and m < len(edge_list) and pair(canon(edge_list[m]), edge_layer[m]) == k for m in Int)) for k in Key)",
+               "W": "implies(weighted(self), all(W(self, k) == (W(old(self), k) if k in E(old(self)) else 0) + bsum(self, edge_list, edge_layer, weights, len(edge_list), k) for k in E(self)))",
+               "layers": "all((l in LAYERS(self)) == (l in LAYERS(old(self)) or any(0 <= m and m < len(edge_list) and edge_layer[m] == l for m in Int)) for l in Layer)",
+               **NODE_MD_KEPT, **SAME_WEIGHTED},
+      invariants={0: {
+          "i": "i == _j0", "j": "0 <= _j0 and _j0 <= len(edge_list)", "wf": "wf(self)",
+          "V": "all((n in V(self)) == (n in V(old(self)) or any(0 <= m and m < _j0 and n in edge_list[m] for m in Int)) for n in Node)",
+          "E": "all((k in E(self)) == (k in E(old(self)) or any(0 <= m and m < _j0 and pair(canon(edge_list[m]), edge_layer[m]) == k for m in Int)) for k in Key)",
+          "W": "implies(weighted(self), all(W(self, k) == (W(old(self), k) if k in E(old(self)) else 0) + bsum(self, edge_list, edge_layer, weights, _j0, k) for k in E(self)))",
+          "W0": "all(bsum(self, edge_list, edge_layer, weights, _j0, k) == 0 for k in Key if k not in E(self))",
+          "layers": "all((l in LAYERS(self)) == (l in LAYERS(old(self)) or any(0 <= m and m < _j0 and edge_layer[m] == l for m in Int)) for l in Layer)",
+          "NM_kept": "all(NM(self, n) == NM(old(self), n) for n in V(old(self)))",
+          "weighted": "weighted(self) == weighted(old(self))", "HM": "HM(self) == HM(old(self))"}}),
+    C("set_attr_to_node_metadata", params={"node": "Node", "field": "Field", "value": "Val"}, requires={"wf": "wf(self)"},
+      raises={"ValueError": "node not in V(self)"}, modifies=["_node_metadata"],
+      ensures={"wf": "wf(self)", "NM": "NM(self, node) == mset(NM(old(self), node), field, value)",
+               "NM_others": "all(NM(self, n) == NM(old(self), n) for n in V(self) if n != node)"}),
+    C("remove_attr_from_node_metadata", params={"node": "Node", "field": "Field"}, requires={"wf": "wf(self)"},
+      raises={"ValueError": "node not in V(self)"},
+      may_raise={"KeyError": "node in V(self) and not mhas(NM(self, node), field)"}, modifies=["_node_metadata"],
+      ensures={"wf": "wf(self)", "NM": "NM(self, node) == mdel(NM(old(self), node), field)",
+               "NM_others": "all(NM(self, n) == NM(old(self), n) for n in V(self) if n != node)"}),
+    C("degree", params={"node": "Node", "order": "Opt[Int]", "size": "Opt[Int]"}, result="Int", pure=True,
+      requires={"wf": "wf(self)"},
+      raises={"ValueError": "(order is not None and size is not None) or node not in V(self)"},
+      ensures={"result": "result == card({k for k in E(self) if node in fst(k) and sel(self, k, order, size, False)})"},
+      properties=["C04", "C08"]),
     C("aggregated_hypergraph", params={}, result="Obj[Hypergraph]", pure=True,
       requires={"wf": "wf(self)"},
       ensures={"wf": "wf(result)", "weighted": "weighted(result) == weighted(self)",
